@@ -1,25 +1,17 @@
-"""Property registry: which Props file holds the theorems, and which correspondence legs
-(family generator, observed op codes, oracles, build profiles) tie them to the crate."""
+"""Property registry: one file per property under tools/props/ (SPEC dict): which Props file
+holds the theorems, and which correspondence legs (family generator, observed op codes,
+oracles, build profiles) tie them to the crate."""
+import importlib.util, os
 
-HOOK_COMMITS = ["34d2484"]
+HERE = os.path.dirname(os.path.abspath(__file__))
+PROPS = {}
+for fn in sorted(os.listdir(os.path.join(HERE, "props"))):
+    if fn.endswith(".py") and fn[0] == "C":
+        spec = importlib.util.spec_from_file_location("prop_" + fn[:-3], os.path.join(HERE, "props", fn))
+        m = importlib.util.module_from_spec(spec)
+        spec.loader.exec_module(m)
+        PROPS[fn[:-3]] = m.SPEC
+
+# commits in /repo that add the (feature-gated, add-only) verification hooks
+HOOK_COMMITS = [l.split()[0] for l in open(os.path.join(HERE, "..", "hooks_commits.txt")) if l.strip()]
 NOT_CLAIMED = {}
-
-PROPS = {
-    "C08": dict(
-        props_file="C08",
-        level_text="Theorems (Props/C08.v) over an executable model of countmin/sketch.rs for an arbitrary bucket function: "
-                   "exact table, exact total, truth <= estimate <= total for every item and every stream, merge adds histories, "
-                   "halve/decay keep the one-sided bound. The model is tied to the crate by running both on the same generated "
-                   "histories (8 counter types, debug+release) and comparing estimates, totals and serialized tables.",
-        level_note="Trusted: Coq kernel, translator (constants), harness/driver, pyref hashes (checked in C16). The (epsilon,delta) "
-                   "tail claim is distributional: no theorem. Monotonicity of the float decay function is checked per run, not proved.",
-        technique="Coq proof by induction over histories (invariant Rep/LB) + differential correspondence model vs crate",
-        legs=[dict(family="countmin", oracles=["prop_ok"], profiles=["debug", "release"],
-                   n_quick=160, n_thorough=2000)],
-        trusted=["bucket indices are supplied by tools/pyref.py (reference MurmurHash3, cross-checked in C16)",
-                 "decay: the theorem is for any monotone scaling g with g 0 = 0 and g c <= c; that the crate's "
-                 "c -> trunc(fl(c)*d) is such a g is checked on every run by the oracle, not proved",
-                 "the (epsilon, delta) tail claim is distributional and has no theorem (DESIGN.md section 9)"],
-        assumptions=["non-negative weights whose total fits the counter type (the property's own precondition)"],
-    ),
-}
